@@ -34,4 +34,11 @@ VARIANTS = [
              (P, "        denominator = _np.sum(denominator, axis=1) / non_zero_indices.shape[0]\n", "        denominator = _np.mean(denominator, axis=1)\n")]),
  dict(id='c04-no-inf-mapping', prop='C04', expect='C04-D3', file=P, old="            tmp_result[_np.isinf(tmp_result)] = _np.nan\n            result[i] = tmp_result.astype(self.precision)", new="            result[i] = tmp_result.astype(self.precision)"),
  dict(id='c04-metric-reads-state', prop='C04', expect='C04-D2', file=P, old="        mean = _np.sum(sums, axis=1) / number_non_zero\n\n        numerator = (((sums / non_zero_counters).T - mean).T)**2\n        numerator *= non_zero_counters / number_non_zero", new="        mean = _np.sum(sums, axis=1) / self.processed_traces\n\n        numerator = (((sums / non_zero_counters).T - mean).T)**2\n        numerator *= non_zero_counters / number_non_zero"),
+dict(id='c04-nicv-total-variance-unsquared-mean', prop='C04', expect='C04-D8', file=P, old="        denominator = _np.sum(sums_squared, axis=1) / number_non_zero - (mean)**2\n", new="        denominator = _np.sum(sums_squared, axis=1) / number_non_zero - mean\n"),
+ dict(id='c04-nicv-weights-not-normalised', prop='C04', expect='C04-D8', file=P, old="        numerator *= non_zero_counters / number_non_zero\n", new="        numerator *= non_zero_counters\n"),
+ dict(id='c04-anova-within-not-normalised', prop='C04', expect='C04-D8', file=P, old="        ) / (number_non_zero - total_non_empty_partitions)\n", new="        )\n"),
+ dict(id='c04-anova-square-of-sums-unnormalised', prop='C04', expect='C04-D8', file=P, old="            (sums_squared - sums ** 2 / non_zero_counters),", new="            (sums_squared - sums ** 2),"),
+ dict(id='c04-snr-noise-mean-unsquared', prop='C04', expect='C04-D8', file=P, old="        denominator = (sums_squared / non_zero_counters) - (sums / non_zero_counters)**2\n", new="        denominator = (sums_squared / non_zero_counters) - (sums / non_zero_counters)\n"),
+ dict(id='c04-kernel-square-sum-unsquared', prop='C04', expect='C04-D8', file=P, old="                        self_sum_square[sample_idx, data_idx, data_value] += xx\n", new="                        self_sum_square[sample_idx, data_idx, data_value] += x\n"),
+ dict(id='c04-silent-nicv-algebraic-rewrite', prop='C04', kind='silent', file=P, old="        denominator = _np.sum(sums_squared, axis=1) / number_non_zero - (mean)**2\n", new="        denominator = (_np.sum(sums_squared, axis=1) - number_non_zero * mean * mean) / number_non_zero\n"),
 ]
